@@ -4306,6 +4306,16 @@ null_pc:
       frm.pop(__func__, __LINE__, pc);
    }
 
+   // indent_func_def_force_col1: the frame of a function definition is closed by the
+   // chunk behind its closing brace; the last function of the file may have none
+   if (  in_func_def
+      && frm.size() == 2
+      && Chunk::GetTail()->Is(CT_BRACE_CLOSE)
+      && Chunk::GetTail()->GetParentType() == CT_FUNC_DEF)
+   {
+      frm.pop(__func__, __LINE__, pc);
+   }
+
    for (size_t idx_temp = 1; idx_temp < frm.size(); idx_temp++)
    {
       LOG_FMT(LWARN, "%s(%d): size is %zu\n",
